@@ -171,7 +171,7 @@ PROPS = {
                                      "wal:WAL.Write", "wal:WAL.Read", "wal:WAL.Close", "wal:WAL.Delete", "wal:WAL.Reset", "wal:WAL.close",
                                      "levelManager.recover", "levelManager.scan", "levelManager.fetch",
                                      "table:Data.Encode", "table:Index.Encode", "table:Footer.Encode", "table:Meta.Encode", "table:Build"],
-        "trusted_base": COMMON_TB + ["the lock table extractor (/verif/extract/locktable.go): intraprocedural lock tracking in source order, callers' lock sets propagated along the package-local call graph, locks and locations identified by variable name -> type (a fixed table), receiver identity assumed for per-instance locks (a memtable's mu guards that memtable's skiplist)",
+        "trusted_base": COMMON_TB + ["extract/gotrans.go (DESIGN section 14) regenerates GenDB.rawset and GenDB.runFlush (the order of the effects of DB.rawset and of the flush case of DB.run) from /repo on every run; DBTie.rawset_table / runFlush_table are part of this property's module (C12_code_publication_under_dbmu)", "the lock table extractor (/verif/extract/locktable.go): intraprocedural lock tracking in source order, callers' lock sets propagated along the package-local call graph, locks and locations identified by variable name -> type (a fixed table), receiver identity assumed for per-instance locks (a memtable's mu guards that memtable's skiplist)",
                                      "the Go race detector and runtime (only as a witness generator: a reported race or panic is a concrete failing schedule; silence proves nothing)"],
         "assumptions": ["data-race freedom in the sense of the Go memory model and absence of runtime panics are properties of the compiled program that no executable model exhibits: partial — decided here is the lock discipline over the regenerated table, the results (C05-C07) and the model-level panic/deadlock freedom (C01, C09, C15)"],
         "explanation": "lock table regenerated from the sources on every run; C12_lock_discipline by kernel evaluation over the whole table; C05-C07 and C15 theorems for results and absence of stuck states; txnconc/closerace suites, also under the race detector, as search for a concrete failing schedule",
